@@ -12,7 +12,8 @@ use serde_json::{json, Value};
 use std::io::Write;
 use std::panic::{catch_unwind, AssertUnwindSafe};
 use std::path::{Path, PathBuf};
-use std::sync::atomic::Ordering;
+use std::sync::atomic::{AtomicBool, Ordering};
+use std::sync::Arc;
 use std::time::Duration;
 
 pub fn fmt_plain(
@@ -559,6 +560,55 @@ pub fn run_scenario(sc: &Value, ex: &mut Exec) -> usize {
                     Ok(()) => "ok".into(),
                     Err(e) => format!("panic:{}", panic_msg(e)),
                 }
+            }
+            "HoldWriter" => {
+                // the asynchronous writer thread parks at its next hook point (sc:writer_recv): what is logged from
+                // now on stays in the channel until the thread is released
+                hh.sched_reset(&["flexi_logger-async_file_writer"]);
+                "ok".into()
+            }
+            "ShutdownRace" => {
+                // n threads call shutdown() on clones of the handle at the same time (FlwShut.tla); the writer thread
+                // is released only after 400 ms: a call that has returned by then returned although the backlog
+                // was not written
+                sync_point = true;
+                let n = st.get("n").and_then(|v| v.as_u64()).unwrap_or(2) as usize;
+                let mut dones = Vec::new();
+                let mut joins = Vec::new();
+                for _ in 0..n {
+                    let d = Arc::new(AtomicBool::new(false));
+                    dones.push(d.clone());
+                    if let Some(hd) = &run.handle {
+                        let hd = hd.clone();
+                        joins.push(std::thread::spawn(move || {
+                            let _ = catch_unwind(AssertUnwindSafe(|| hd.shutdown()));
+                            d.store(true, Ordering::SeqCst);
+                            drop(hd);
+                        }));
+                    } else if let Some(a) = &run.arc {
+                        let a = a.clone();
+                        joins.push(std::thread::spawn(move || {
+                            let _ = catch_unwind(AssertUnwindSafe(|| a.shutdown()));
+                            d.store(true, Ordering::SeqCst);
+                        }));
+                    }
+                }
+                let held = hh.sched_on.load(Ordering::SeqCst);
+                if held {
+                    std::thread::sleep(std::time::Duration::from_millis(400));
+                }
+                let early = dones.iter().filter(|d| d.load(Ordering::SeqCst)).count();
+                let was = hh.record.swap(false, Ordering::SeqCst);
+                let o = obs::observe(&dir, &cfg, None, raw);
+                hh.record.store(was, Ordering::SeqCst);
+                ev["held"] = json!(held);
+                ev["early"] = json!(if held { early } else { 0 });
+                ev["heldids"] = o["anyids"].clone();
+                hh.sched_off();
+                for j in joins {
+                    let _ = j.join();
+                }
+                "ok".into()
             }
             "Stop" => {
                 sync_point = true;
